@@ -702,3 +702,25 @@ def membership_guarded(edge):
                         if b.dominates(tgt, b2) and b.dominates(b2, edge.bb):
                             return True
     return False
+
+
+_CG_CACHE = {}
+
+
+def only_called_from(crate, fn, allowed, depth=0):
+    """fn is a crate-local helper all of whose callers are in `allowed` (or are such helpers themselves): a private extraction of code
+    that belongs to an allowed function. Functions that nobody calls, or whose address is taken, do not qualify."""
+    cg = _CG_CACHE.get(id(crate))
+    if cg is None:
+        cg = _CG_CACHE[id(crate)] = CallGraph(crate)
+    callers = [(src, e) for src, es in cg.edges.items() for e in es if e.dst == fn and src != fn]
+    if not callers or depth > 3:
+        return False
+    for src, e in callers:
+        if e.kind == "ref":
+            return False
+        if src in allowed:
+            continue
+        if not only_called_from(crate, src, allowed, depth + 1):
+            return False
+    return True
